@@ -53,7 +53,7 @@ def spec_key(spec, with_mass=True):
     return (j, 10.0 + d + 0.5) if spec % 2 == 1 else (10 * j + 1, d + 0.5)
 
 
-def build_table(rows, *, label_enc="1/-1", extra_levels=(), nfeat=2, key_cols=("ScanNr", "ExpMass"), missing_rt=False):
+def build_table(rows, *, label_enc="1/-1", extra_levels=(), nfeat=2, key_cols=("ScanNr", "ExpMass"), missing_rt=False, share2=False):
     """rows: list of dicts with id (int), spec (int), pep (int), tgt (bool), feats (list of float, optional),
     lvl (dict level-name -> int, optional), file (int, optional).  Returns a DataFrame in PIN column order."""
     n = len(rows)
@@ -64,7 +64,14 @@ def build_table(rows, *, label_enc="1/-1", extra_levels=(), nfeat=2, key_cols=("
         "ScanNr": [k[0] for k in keyed],
         "ExpMass": [k[1] for k in keyed],
     }
-    if "ret_time" in key_cols:
+    if share2:
+        # spectra 2j-1 and 2j agree on the scan number (and the retention time) and differ only in the mass: distinct spectra
+        # that share the first two key columns
+        d["ScanNr"] = [(int(r["spec"]) + 1) // 2 for r in rows]
+        d["ExpMass"] = [500.0 + int(r["spec"]) for r in rows]
+    if "ret_time" in key_cols and share2:
+        d["ret_time"] = [10.0 for r in rows]
+    elif "ret_time" in key_cols:
         # missing_rt: every third spectrum has no retention time (an empty cell / null in a spectrum-key column)
         d["ret_time"] = [float("nan") if (missing_rt and int(r["spec"]) % 3 == 0) else 10.0 + int(r["spec"]) * 0.5 for r in rows]
     if "filename" in key_cols:
